@@ -629,6 +629,11 @@ func drawRHP2(t *rapid.T) R2Case {
 		if m.Dir == "err" || m.Dir == "rawerr" {
 			m.Kind = "RPCError"
 			m.N = rapid.IntRange(0, 300).Draw(t, "n")
+			if rapid.IntRange(0, 3).Draw(t, "bigError") == 0 {
+				// an error with a long description or a large data blob (a host returning a transaction set or a log
+				// excerpt): around and beyond the 4 KiB minimum message size
+				m.N = rapid.SampledFrom([]int{2700, 2731, 4000, 4096, 4097, 6000, 20000}).Draw(t, "bigErrorN")
+			}
 		} else if m.Dir == "req" && rapid.IntRange(0, 5).Draw(t, "idonly") == 0 {
 			m.Kind = "none"
 		} else {
